@@ -19,6 +19,9 @@ extra() {  # checks tried in addition to the seed's own property
     C20d) echo "C18" ;;
     C09c) echo "C02" ;;
     C09d) echo "C08" ;;
+    C11c|C18d) echo "C18 C11" ;;
+    C19c) echo "C18" ;;
+    C17c) echo "C20" ;;
     C04b) echo "C10" ;;
     C09b) echo "C08" ;;
     C08a) echo "C09" ;;
